@@ -304,3 +304,45 @@ def two_team_workplace_spec():
             "workplaces": [{"name": "WP0", "cap": 1.0, "targets": [0, 2], "facilities": [{"name": "F0", "skills": {"T0": 1.0, "T2": 1.0}, "cost": 2.0}]}],
             "teams": [{"name": "TM0", "targets": [0, 1], "workers": [{"name": "W0", "skills": {"T0": 1.0, "T1": 1.0}, "fskills": {"F0": 1.0}, "cost": 1.0}]},
                       {"name": "TM1", "targets": [1, 2], "workers": [{"name": "W1", "skills": {"T1": 1.0, "T2": 1.0}, "fskills": {"F0": 1.0}, "cost": 3.0}]}]}
+
+
+def same_name_task_specs():
+    """two different tasks carrying the same name (IDs differ), two teams each assigned to one of them"""
+    out = []
+    for links in ([], [[0, 1, "FS"]]):
+        for w1skill in (1.0, 2.0):
+            tasks = [{"name": "weld", "id": "T0", "work": 2.0}, {"name": "weld", "id": "T1", "work": 2.0}, {"name": "paint", "id": "T2", "work": 1.0}]
+            teams = [{"name": "TM0", "targets": [0, 2], "workers": [{"name": "W0", "skills": {"weld": 1.0, "paint": 1.0}, "cost": 1.0}]},
+                     {"name": "TM1", "targets": [1], "workers": [{"name": "W1", "skills": {"weld": w1skill}, "cost": 2.0}]}]
+            out.append({"tasks": tasks, "links": links, "teams": teams, "label": "samename:%s:%s" % (len(links), w1skill)})
+    return out
+
+
+def unsorted_absence_specs():
+    """resources whose own absence lists are written unsorted / with repeated steps"""
+    out = []
+    for wabs, fabs in (([3, 0], []), ([2, 0, 1], [1, 0]), ([1, 1, 0], [4, 2]), ([5, 1, 0], [0])):
+        names = ["T0", "T1"]
+        full = {nm: 1.0 for nm in names}
+        sp = {"tasks": [{"name": "T0", "work": 3.0, "nf": True}, {"name": "T1", "work": 2.0}], "links": [],
+              "components": [{"name": "C0", "tasks": [0]}],
+              "workplaces": [{"name": "WP0", "cap": 1.0, "targets": [0], "facilities": [{"name": "F0", "skills": {"T0": 1.0}, "cost": 1.0, "absence": list(fabs)}, {"name": "F1", "skills": {"T0": 1.0}, "cost": 1.0}]}],
+              "teams": [{"name": "TM0", "targets": [0, 1], "workers": [{"name": "W0", "skills": dict(full), "fskills": {"F0": 1.0, "F1": 1.0}, "cost": 1.0, "absence": list(wabs)},
+                                                                      {"name": "W1", "skills": dict(full), "fskills": {"F0": 1.0, "F1": 1.0}, "cost": 2.0, "absence": [2]}]}],
+              "label": "unsorted-absence:%s:%s" % (wabs, fabs)}
+        out.append(sp)
+    return out
+
+
+def auto_in_workplace_specs():
+    """an automatic task that has no component but is listed among a workplace's targeted tasks"""
+    out = []
+    for head in (True, False):
+        tasks = [{"name": "T0", "work": 2.0, "nf": True}, {"name": "T1", "work": 2.0, "auto": True}, {"name": "T2", "work": 1.0}]
+        links = [[1, 2, "FS"]] if head else [[0, 1, "FS"], [1, 2, "FS"]]
+        sp = {"tasks": tasks, "links": links, "components": [{"name": "C0", "tasks": [0]}],
+              "workplaces": [{"name": "WP0", "cap": 1.0, "targets": [0, 1, 2], "facilities": [{"name": "F0", "skills": {"T0": 1.0}, "cost": 1.0}]}],
+              "teams": [{"name": "TM0", "targets": [0, 2], "workers": [{"name": "W0", "skills": {"T0": 1.0, "T2": 1.0}, "fskills": {"F0": 1.0}, "cost": 1.0}]}],
+              "label": "auto-in-workplace:%s" % head}
+        out.append(sp)
+    return out
